@@ -1230,12 +1230,15 @@ func genID(t *rapid.T) Val {
 	return Val{T: "float", F: gen.F(genFloat(t))}
 }
 
-func genFeat(t *rapid.T) Feat {
+func genFeat(t *rapid.T) Feat { return genFeatG(t, genGeom) }
+
+// genFeatG draws a feature whose geometry comes from gfn.
+func genFeatG(t *rapid.T, gfn func(*rapid.T) orb.Geometry) Feat {
 	f := Feat{ID: genID(t)}
 	if rapid.IntRange(0, 14).Draw(t, "nullgeom") == 0 {
 		f.Geom = gen.G{V: nil}
 	} else {
-		f.Geom = gen.G{V: genGeom(t)}
+		f.Geom = gen.G{V: gfn(t)}
 	}
 	switch rapid.IntRange(0, 5).Draw(t, "propk") {
 	case 0:
@@ -1254,11 +1257,14 @@ func genFeat(t *rapid.T) Feat {
 
 var reservedFC = []string{"type", "bbox", "features"}
 
-func genFC(t *rapid.T) FColl {
+func genFC(t *rapid.T) FColl { return genFCG(t, genGeom) }
+
+// genFCG draws a feature collection whose feature geometries come from gfn.
+func genFCG(t *rapid.T, gfn func(*rapid.T) orb.Geometry) FColl {
 	c := FColl{Features: []Feat{}, Extra: []KV{}}
 	n := rapid.IntRange(0, 3).Draw(t, "nfeat")
 	for i := 0; i < n; i++ {
-		c.Features = append(c.Features, genFeat(t))
+		c.Features = append(c.Features, genFeatG(t, gfn))
 	}
 	if n == 0 {
 		c.FeaturesNil = rapid.Bool().Draw(t, "featnil")
@@ -1624,9 +1630,19 @@ func TestKnownTopLevelEmptyCollection(t *testing.T) {
 }
 
 func TestReplay(t *testing.T) {
-	_, raw, ok := stats.Replaying()
+	name, raw, ok := stats.Replaying()
 	if !ok {
 		t.Skip("no replay file")
+	}
+	if strings.Contains(name, "Sequence") {
+		var c SeqCase
+		if err := json.Unmarshal(raw, &c); err != nil {
+			t.Fatal(err)
+		}
+		if err := stats.Guard(func() error { return checkSeq(c) }); err != nil {
+			t.Fatalf("replayed sequence still fails: %v", err)
+		}
+		return
 	}
 	var c Case
 	if err := json.Unmarshal(raw, &c); err != nil {
